@@ -36,7 +36,7 @@ fn dur_secs(u: &mut Unstructured) -> arbitrary::Result<u64> {
         1 => u.int_in_range(0..=200_000u64)?,
         2 => u.int_in_range(0..=100_000u64)? * 86_400 + *u.choose(&[0u64, 1, 86_399])?,
         3 => u.int_in_range(0..=400_000_000_000_000u64)?,
-        4 => *u.choose(&[u64::MAX, u64::MAX - 1, 1 << 63, (1 << 63) - 1, 185_542_587_187_199, 185_542_587_187_200, 371_085_174_374_399, 371_085_174_374_400])?,
+        4 => *u.choose(&[u64::MAX, u64::MAX - 1, 1 << 63, (1 << 63) - 1, 9_223_372_036, 9_223_372_037, 18_446_744_073, 18_446_744_074, 4, 5, u64::MAX / 86_400, u64::MAX / 86_400 * 86_400, 185_542_587_187_199, 185_542_587_187_200, 371_085_174_374_399, 371_085_174_374_400])?,
         5 => u.int_in_range(0..=u64::MAX)?,
         6 => (1u64 << 32) * 86_400 - u.int_in_range(0..=200_000u64)?,
         7 => ((1u64 << 31) * 86_400).wrapping_add(u.int_in_range(0..=400_000u64)?).wrapping_sub(200_000),
@@ -55,7 +55,17 @@ impl Prop for AddSub {
         let op = match kind {
             0..=5 => Op::Unit { unit: u.below(7)? as u8, count: gen::count(u)?, sub },
             6 => Op::DateDays { count: gen::count(u)?, sub },
-            7 => Op::DtDur { secs: dur_secs(u)?, nanos: u.int_in_range(0..=999_999_999u32)?, sub, assign: u.coin(1, 3)? },
+            7 => {
+                let (secs, nanos) = if u.coin(1, 5)? {
+                    // total nanoseconds next to 2^32, 2^63, 2^64 (thresholds of any 32/64-bit intermediate)
+                    let total: u128 = *u.choose(&[1u128 << 32, 1u128 << 63, 1u128 << 64, (1u128 << 64) + (1u128 << 63), 1u128 << 65])?;
+                    let total = (total as i128 + u.range_i64(-2, 2)? as i128 + if u.coin(1, 2)? { u.range_i64(0, 999_999_999)? as i128 } else { 0 }).max(0) as u128;
+                    ((total / 1_000_000_000) as u64, (total % 1_000_000_000) as u32)
+                } else {
+                    (dur_secs(u)?, u.int_in_range(0..=999_999_999u32)?)
+                };
+                Op::DtDur { secs, nanos, sub, assign: u.coin(1, 3)? }
+            }
             8 => Op::DtTime { tns: gen::day_ns(u)? as u64, sub, assign: u.coin(1, 3)? },
             _ => Op::DateDur { secs: dur_secs(u)?, nanos: u.int_in_range(0..=999_999_999u32)?, sub, assign: u.coin(1, 3)? },
         };
